@@ -66,6 +66,8 @@ func configs(tier string) []Cfg {
 					out = append(out, Cfg{Len: l, Proto: v.p, Method: v.m, Port: "open", Silent: s, First: 1, Concur: 1})
 				}
 				out = append(out, Cfg{Len: l, Proto: v.p, Method: v.m, Port: "open", First: 2, Concur: 1})
+				// the very first probe already reaches the destination
+				out = append(out, Cfg{Len: l, Proto: v.p, Method: v.m, Port: "open", First: l + 1, Concur: 1})
 			}
 		}
 		// IPv6 (ICMPv6 and UDP are the IPv6-capable variants)
